@@ -1,7 +1,7 @@
 (* C02 - Every incoming request is answered exactly once under its own id.
    Model: model/Conn.v: _send_result, _receive_request_batch and its item_send_result closure
    (jsonrpc.py:616-690), receive_message. *)
-From AV Require Import Base Utf8 Json Gen_jsonrpc Codec Conn ConnProofs.
+From AV Require Import Base Utf8 Json Gen_jsonrpc Codec Conn ConnProofs Gen_jsonrpc ConnCode ConnCodeProofs.
 
 (* a single request: one reply carrying its id - the result, or the -32600 error when the
    encoded response exceeds a positive max_response_size *)
@@ -56,8 +56,34 @@ Example C02_ex :
                               print (error_payload V2 (JInt 5) [] (JStr [97]%N))])].
 Proof. vm_compute. reflexivity. Qed.
 
+(* the reply side is translated from the Python source on every run: item_send_result - the closure through which each
+   request of a batch is answered (size accounting, replacement of the entry that takes the response over the limit,
+   the batch message once every member has its result) - and _send_result for single requests; nothing was left
+   untranslated, and run by the interpreter of model/ConnCode.v they give what the model's batch_send_result /
+   send_result give, for every accumulator, limit, id and result *)
+Theorem C02_reply_code_known : bknown 4 item_send_result_code && bknown 4 send_result_code = true.
+Proof. exact reply_code_known. Qed.
+
+Theorem C02_batch_send_result_from_source : forall c p ctx rid v,
+  match batch_send_result_generated c p ctx rid v with
+  | BReturned r msg =>
+      batch_send_result c p ctx rid v = ({| parts := b_parts r; count := count ctx; bsize := b_size r |}, msg)
+  | _ => False
+  end.
+Proof. exact generated_batch_send_result. Qed.
+
+Theorem C02_send_result_from_source : forall c p rid v,
+  match send_result_generated c p rid v with
+  | BReturned _ msg => msg = Some (send_result c p rid v)
+  | _ => False
+  end.
+Proof. exact generated_send_result. Qed.
+
 Print Assumptions C02_single_one_reply.
 Print Assumptions C02_request_batch_count.
 Print Assumptions C02_entry_under_own_id.
 Print Assumptions C02_batch_one_reply.
 Print Assumptions C02_refuted.
+Print Assumptions C02_reply_code_known.
+Print Assumptions C02_batch_send_result_from_source.
+Print Assumptions C02_send_result_from_source.
